@@ -33,7 +33,9 @@
 (* VECTORS (ACTION_CONSTRAINT Emit, -workers 1), one JSON object per line: *)
 (*   {"kind":"func","f":{"params":[nm..],"blocks":[{"name":..,"insts":     *)
 (*      [{"name":..,"res":..}],"term":{"k":..,"name":..,"res":..}}]},      *)
-(*    "ids":[..]}     ids = LLVMLocalNumbering in flat order, -1 = none    *)
+(*    "form":..,"ids":[..]}                                                *)
+(*                    ids = LLVMLocalNumbering in flat order, -1 = none;   *)
+(*                    form = spelling of the call-like values (below)      *)
 (*   {"kind":"mod","src":[{"kind":..,"name":..}],"textual":[..],           *)
 (*    "printed":[..]} per definition: the number LLVM reads in the input   *)
 (*                    text and the number it has in printed output         *)
@@ -44,11 +46,32 @@ CONSTANTS ValidateOnPrint,
           Kinds,             \* subset of {"func", "mod"}
           MaxParams, MaxBlocks, MaxInsts,
           InstRes, TermKinds,
+          Forms,             \* syntactic forms of the call-like values (see below)
           MaxSrc,
           EmitFile
 
-VARIABLES kind, stage, f, src
-vars == <<kind, stage, f, src>>
+VARIABLES kind, stage, f, src, form
+vars == <<kind, stage, f, src, form>>
+
+(***************************************************************************)
+(* Whether a call-like value takes a number depends on its *result type*   *)
+(* only (res), never on how the callee is written.  LLVM's grammar allows  *)
+(* many spellings, and the translator has to find the result type in each  *)
+(* of them before it numbers the function (asm/inst_other.go newCallInst,  *)
+(* asm/term.go newInvokeTerm, newCallBrTerm).  `form` selects the spelling *)
+(* used for every call, invoke and callbr of a vector (the harness falls   *)
+(* back to "short" where a form does not exist for a kind):                *)
+(*   "short"     call void @f()            result type only                *)
+(*   "long"      call void (i32) @f(i32 7) full function type, non-variadic*)
+(*   "longva"    call void (...) @f()      full function type, variadic    *)
+(*   "bitcast"   call void bitcast (<variadic @f> to <pointer to void()>)() *)
+(*   "asm"       call void asm "", ""()    inline assembler callee         *)
+(*   "tail"      tail call / notail call                                   *)
+(*   "addrspace" call addrspace(1) void @f()                               *)
+(* The numbering in the vector does not mention form: that is the law.     *)
+(***************************************************************************)
+AllForms == {"short", "long", "longva", "bitcast", "asm", "tail", "addrspace"}
+ASSUME Forms \subseteq AllForms
 
 ParamSeqs == UNION {[1..n -> {Ent(""), Ent("p")}] : n \in 0..MaxParams}
 NewInsts  == {Inst("", "value"), Inst("v", "value")} \cup {Inst("", r) : r \in InstRes \ {"value"}}
@@ -63,22 +86,23 @@ SrcEntries == {[kind |-> k, name |-> nm] : k \in {"global", "alias", "ifunc", "f
 \* LLVM verifier: catchswitch heads its block and is not in the entry block
 ValidBlock(pos, is, t) == t.k = "catchswitch" => (is = <<>> /\ pos > 1)
 
-Init == /\ kind \in Kinds /\ stage = 0
+Init == /\ kind \in Kinds /\ stage = 0 /\ form = "short"
         /\ f = [params |-> <<>>, blocks |-> <<>>] /\ src = <<>>
 
 NextFunc ==
   /\ kind = "func" /\ UNCHANGED <<kind, src>>
   /\ \/ /\ stage = 0
         /\ \E ps \in ParamSeqs : f' = [f EXCEPT !.params = ps]
+        /\ form' \in Forms
         /\ stage' = 1
      \/ /\ stage \in 1..MaxBlocks
         /\ \E nm \in {"", "b"}, is \in InstSeqs, t \in Terms :
              /\ ValidBlock(stage, is, t)
              /\ f' = [f EXCEPT !.blocks = Append(@, Block(nm, is, t))]
-        /\ stage' = stage + 1
+        /\ stage' = stage + 1 /\ UNCHANGED form
 
 NextMod ==
-  /\ kind = "mod" /\ UNCHANGED <<kind, f>>
+  /\ kind = "mod" /\ UNCHANGED <<kind, f, form>>
   /\ Len(src) < MaxSrc
   /\ \E e \in SrcEntries : src' = Append(src, e)
   /\ stage' = stage + 1
@@ -141,7 +165,7 @@ Write(rec) == Serialize(ToJson(rec) \o "\n", EmitFile,
 
 Emit ==
   IF kind' = "func"
-  THEN stage' >= 2 => Write([kind |-> "func", f |-> ShapeOf(f'), ids |-> LLVMLocalNumbering(f')])
+  THEN stage' >= 2 => Write([kind |-> "func", f |-> ShapeOf(f'), form |-> form', ids |-> LLVMLocalNumbering(f')])
   ELSE Write([kind |-> "mod", src |-> src', textual |-> TextualGlobalNumbering(src'),
               printed |-> PrintedNumber(src')])
 =============================================================================
